@@ -44,6 +44,17 @@ CHECKS['C04'] = dict(
     technique='symbolic execution of the Python source + Z3 QF_NRA per path; assume-guarantee summary of Exp/Log from C01',
 )
 
+CHECKS['C12'] = dict(
+    level='model_checking',
+    text='Symbolic execution of the real Screw/Wrench classes and helpers with symbolic frames A, B, C, 6-vectors, '
+         'forces, points and scalars: round trip, functoriality, recorded frame, power invariance, moment = p x f, '
+         'zero moment about the application point, mixed-frame sums and the vector-space laws for every operand '
+         'form (scalar, 6-array, 6x1 array, object, right-hand operators), each an obligation decided per path by '
+         'normal form + Z3; the frame-change oracle is built independently from the homogeneous matrices.',
+    design='5/C12',
+    technique='symbolic execution of the Python source + Z3 QF_NRA per path; assume-guarantee summary of Exp/Log from C01',
+)
+
 NOT_APPLICABLE = {
 }
 
